@@ -31,3 +31,35 @@ Definition check_smooth (tol : Q) (noncanon : bool) (B : nat) (shape : list nat)
   forallb axis_ok shape && (length dists =? length shape)%nat && (length ker =? prodl shape)%nat &&
   (length x =? B * prodl shape * A)%nat &&
   qc_all_close tol (g_smooth noncanon shape dists ker B A x) y.
+
+(* ---- nifty.re CorrelatedFieldMaker.finalize: the harmonic transform of a product of sub-grids ------
+     for sgrid in self._target_grids:
+         sub_shp = sgrid.harmonic_grid.shape ; excitation_shape += sub_shp ; n = len(excitation_shape)
+         harmonic_dvol = 1.0 / sgrid.total_volume
+         axes = tuple(range(n - len(sub_shp), n)) ; trafo = partial(hartley, axes=axes)
+     def outer_harmonic_transform(p):
+         outer = harmonic_dvol_0 * ht_0(p)
+         for harmonic_dvol, ht in harmonic_transforms[1:]: outer = harmonic_dvol * ht(outer)
+   i.e. sub-grid i is transformed along ITS OWN axes: in the flat C-ordered array it is the middle factor
+   of (B, N_i, A) with B = cells of the sub-grids before it and A = cells of those after it. *)
+Fixpoint outer_ht (noncanon : bool) (before : nat) (shapes : list (list nat)) (vols : list Q) (x : list QC)
+  : list QC :=
+  match shapes, vols with
+  | sh :: rest, v :: vrest =>
+      let N := prodl sh in
+      let A := prodl (map prodl rest) in
+      let f := fun (u : nat -> QC) (k : nat) =>
+                 ((/ Q2Qc v) * hartley QcK noncanon (gkern sh) N (fun j => fst (u j)) k, 0)%Qc in
+      outer_ht noncanon (before * N) rest vrest (flat_apply QcK f before N A x)
+  | _, _ => x
+  end.
+
+Definition unit_vec (n j : nat) : list QC :=
+  map (fun i => if (i =? j)%nat then (1%Qc, 0%Qc) else (0%Qc, 0%Qc)) (seq 0 n).
+
+(* column j of the transform (response to the j-th excitation divided by its coefficient) *)
+Definition check_outer_ht (tol : Q) (noncanon : bool) (shapes : list (list nat)) (vols : list Q) (j : nat) (col : list Q)
+  : bool :=
+  forallb (forallb axis_ok) shapes && (length vols =? length shapes)%nat &&
+  (length col =? prodl (map prodl shapes))%nat &&
+  qc_all_close tol (map fst (outer_ht noncanon 1 shapes vols (unit_vec (prodl (map prodl shapes)) j))) col.
